@@ -323,9 +323,11 @@ package keeper
 //@ ensures C09/repay-keeps-the-liabilities-gap: err == nil && old(mtp.Id != 0 && mtp.AmmPoolId == pool.AmmPoolId && inStepLiab(ctx, mtp, pool, p, s, d)) && (mtp.Custody > 0 || (mtp.Custody == 0 && mtp.Liabilities == 0 && mtp.Collateral == 0)) ==> liabGap(ctx, p, s, d) == old(liabGap(ctx, p, s, d))
 //@ ensures C09/repay-keeps-the-collateral-gap: err == nil && old(mtp.Id != 0 && mtp.AmmPoolId == pool.AmmPoolId && inStepColl(ctx, mtp, pool, p, s, d)) && (mtp.Custody > 0 || (mtp.Custody == 0 && mtp.Liabilities == 0 && mtp.Collateral == 0)) ==> collGap(ctx, p, s, d) == old(collGap(ctx, p, s, d))
 // The gap clauses above are stated for a position that is kept, or removed with nothing left. This one
-// says a position is only removed with nothing left (for sane inputs: amounts not negative, a closing
-// ratio in (0, 1], liabilities paid in that ratio).
-//@ local-ensures C09/a-removed-position-has-nothing-left: err == nil && old(mtp.Custody >= 0 && mtp.Liabilities >= 0 && mtp.Collateral >= 0) && closingRatio > 0 && closingRatio <= 1000000000000000000 && payingLiabilities == (old(mtp.Liabilities) * closingRatio) / 1000000000000000000 && mtp.Custody <= 0 ==> mtp.Custody == 0 && mtp.Liabilities == 0 && mtp.Collateral == 0
+// says a position is only removed with nothing left (for a closing ratio in (0, 1] and liabilities paid
+// in that ratio). It is REFUTED - a known finding (DESIGN A.6, known_findings.json): a position whose
+// custody is zero or negative is removed by a partial close while the pool keeps the unclosed share.
+// Proved on the body only, never handed to callers.
+//@ local-ensures C09/a-removed-position-has-nothing-left: err == nil && old(mtp.Liabilities >= 0 && mtp.Collateral >= 0) && closingRatio > 0 && closingRatio <= 1000000000000000000 && payingLiabilities == (old(mtp.Liabilities) * closingRatio) / 1000000000000000000 && mtp.Custody <= 0 ==> mtp.Custody == 0 && mtp.Liabilities == 0 && mtp.Collateral == 0
 //@ ensures C09/repay-stores-or-removes-the-position: err == nil ==> ite(mtp.Custody <= 0, !mtpHas(ctx, unbech32(mtp.Address), mtp.Id), mtpHas(ctx, unbech32(mtp.Address), mtp.Id) && mtpRow(ctx, unbech32(mtp.Address), mtp.Id).Custody == mtp.Custody && mtpRow(ctx, unbech32(mtp.Address), mtp.Id).Liabilities == mtp.Liabilities && mtpRow(ctx, unbech32(mtp.Address), mtp.Id).Collateral == mtp.Collateral)
 
 //@ func (Keeper).FundingFeeCollection
